@@ -46,7 +46,7 @@ VH_MAIN {
     for (int q = 0; q < 2; q++) if (q < nr) {
         ASSERT(woff[q] == roff[q] + (in.to - in.from), "a chunk is written at its read offset shifted by (to - from)");
         ASSERT(wlen[q] == rlen[q], "a chunk is written with the length that was read");
-        ASSERT(roff[q] >= in.from && roff[q] + rlen[q] <= in.from + in.nbytes, "chunks lie inside the block to move");
+        ASSERT(rlen[q] == 0 || (roff[q] >= in.from && roff[q] + rlen[q] <= in.from + in.nbytes), "non-empty chunks lie inside the block to move");  /* an idle rank's zero-length call may name an offset past the block: it carries no byte */
     }
     if (nr == 2) ASSERT(roff[1] + rlen[1] <= roff[0] && woff[0] >= roff[1] + rlen[1] || rlen[0] == 0 || rlen[1] == 0, "rounds proceed from the tail: an earlier round's destination does not overlap a later round's source");
 #if NPROCS > 1
